@@ -189,6 +189,10 @@ type q02 struct {
 	f    [14]int
 	comp ch.Compression
 	rev  int
+	// hist: what happened on the client before the query: 0 nothing; 1 a Ping that was refused
+	// because its context was already cancelled; 2 a Ping that was answered; 3 a Do that was
+	// refused because its context was already cancelled (the client may close itself)
+	hist int
 }
 
 var q02Alph = [14]int{5, 8, 4, 4, 4, 2, 2, 2, 2, 3, 9, 2, 3, 3}
@@ -200,6 +204,9 @@ func (k q02) id() string {
 		if v != 0 {
 			fmt.Fprintf(&sb, "%s=%d,", q02Names[i], v)
 		}
+	}
+	if k.hist != 0 {
+		fmt.Fprintf(&sb, "hist=%d,", k.hist)
 	}
 	return fmt.Sprintf("q{%s}/comp=%d/rev=%d", sb.String(), k.comp, k.rev)
 }
@@ -379,6 +386,39 @@ func body02(k q02) Body {
 			steps = append(steps, Step{Name: "schema", Send: c.W.Data(0, sc...)}, Step{Name: "await-data", AwaitN: 1 + len(want)})
 		}
 		steps = append(steps, Step{Name: "eos", Send: EOS()})
+		switch k.hist {
+		case 1, 3:
+			dead, cancelDead := context.WithCancel(context.Background())
+			cancelDead()
+			var herr error
+			if k.hist == 1 {
+				herr = c.Cl.Ping(dead)
+			} else {
+				herr = c.Cl.Do(dead, ch.Query{Body: "SELECT 0", QueryID: "refused"})
+			}
+			if herr == nil {
+				return Outcome{Key: "C02/history/cancelled-call-succeeded", Detail: "a call with an already cancelled context returned nil"}
+			}
+			if c.Cl.IsClosed() {
+				return Outcome{Obs: "closed-by-history"}
+			}
+			if n := c.C.OutLen(); n != c.HsLen {
+				return Outcome{Key: "C02/history/refused-call-wrote-bytes", Detail: fmt.Sprintf("a call refused for its cancelled context wrote %x", c.C.Snapshot()[c.HsLen:])}
+			}
+		case 2:
+			before := c.C.OutLen()
+			vsched.Go("ping-peer", func() {
+				closed := false
+				c.C.Await(func(o []byte, cl bool) bool { closed = cl; return cl || len(o) > before })
+				if !closed {
+					c.C.Deliver(Pong())
+				}
+			})
+			if herr := c.Cl.Ping(context.Background()); herr != nil {
+				return Outcome{Key: "C02/history/ping-failed", Detail: herr.Error()}
+			}
+			c.HsLen = c.C.OutLen()
+		}
 		c.RunPeer("peer", c.HsLen, steps, nil)
 		derr := c.Cl.Do(ctx, q)
 		out := c.C.Snapshot()[c.HsLen:]
@@ -471,7 +511,7 @@ func body02(k q02) Body {
 
 // C02 — everything the client writes for a query is a well-formed packet sequence.
 func C02(c *vk.Ctx) {
-	c.Rule("queries with <= 2 (thorough 4) fields deviating from a base query over per-field alphabets (query id given / generated / 127 / 128 / 300 bytes; body short / empty / 127 / 128 / 16383 / 16384 bytes / 70 KiB / non-UTF-8; setting and parameter keys and values of 127 / 128 bytes; 0..2 connection settings; 0..2 query settings incl. an override and an empty value; 0..2 parameters; secret; query quota key; connection quota key (addendum); initial user; external data none / default table / named table with 2 columns; input of 1..3 columns, sent as one block, streamed in two rounds through OnInput (Reset + refill of the same column objects) or sent without rows, over 32 column types and two large pseudo-random blocks (40000 x UInt64 = 320 KB, 3000 x 64-byte strings) (integers to 256 bits, floats, Bool, UUID, IPv4/6, dates, DateTime64, Decimal, FixedString, name-based enums that must adopt the server's definition, JSON, Point, Nullable, LowCardinality, nested arrays, Array(LowCardinality), Map(String, Array), Tuple); OpenTelemetry span context) x {Disabled, None, LZ4, LZ4HC, ZSTD} at the newest revision, and queries with <= 1 deviation x every revision of the threshold-neighbour set from 54420 up x {Disabled, LZ4}. Each case is one execution of the real Connect + Do (default schedule); the recorded client bytes are compared with the reference encoding (Query packet byte for byte; blocks by reference decoding incl. frame checksum). distinct_nontrivial = cases.")
+	c.Rule("queries with <= 2 (thorough 4) fields deviating from a base query over per-field alphabets (query id given / generated / 127 / 128 / 300 bytes; body short / empty / 127 / 128 / 16383 / 16384 bytes / 70 KiB / non-UTF-8; setting and parameter keys and values of 127 / 128 bytes; 0..2 connection settings; 0..2 query settings incl. an override and an empty value; 0..2 parameters; secret; query quota key; connection quota key (addendum); initial user; external data none / default table / named table with 2 columns; input of 1..3 columns, sent as one block, streamed in two rounds through OnInput (Reset + refill of the same column objects) or sent without rows, over 32 column types and two large pseudo-random blocks (40000 x UInt64 = 320 KB, 3000 x 64-byte strings) (integers to 256 bits, floats, Bool, UUID, IPv4/6, dates, DateTime64, Decimal, FixedString, name-based enums that must adopt the server's definition, JSON, Point, Nullable, LowCardinality, nested arrays, Array(LowCardinality), Map(String, Array), Tuple); OpenTelemetry span context) x {Disabled, None, LZ4, LZ4HC, ZSTD} at the newest revision, and queries with <= 1 deviation x every revision of the threshold-neighbour set from 54420 up x {Disabled, LZ4}. plus queries with <= 1 deviation on a client with a history (a Ping or a Do refused for an already cancelled context; an answered Ping). Each case is one execution of the real Connect + Do (default schedule); the recorded client bytes are compared with the reference encoding (Query packet byte for byte; blocks by reference decoding incl. frame checksum). distinct_nontrivial = cases.")
 	run := func(k q02, group string) {
 		id := k.id()
 		if !c.Next(id) {
@@ -527,6 +567,36 @@ func C02(c *vk.Ctx) {
 				rec(kk, i+1, left-1)
 			}
 		}
+	}
+	// partition 0: the same on a client with a history (<= 1 deviating field)
+	{
+		var rech func(k q02, from, left int)
+		rech = func(k q02, from, left int) {
+			if (k.f[12] != 0 || k.f[13] != 0) && k.f[10] == 0 {
+				return
+			}
+			for _, h := range []int{1, 2, 3} {
+				for _, comp := range []ch.Compression{ch.CompressionDisabled, ch.CompressionLZ4} {
+					kk := k
+					kk.hist, kk.comp, kk.rev = h, comp, ServerRev
+					run(kk, "client with a history")
+				}
+			}
+			if left == 0 {
+				return
+			}
+			for i := from; i < len(k.f); i++ {
+				if i == 12 {
+					continue
+				}
+				for v := 1; v < q02Alph[i]; v++ {
+					kk := k
+					kk.f[i] = v
+					rech(kk, i+1, left-1)
+				}
+			}
+		}
+		rech(q02{}, 0, 1)
 	}
 	maxDev := 2
 	if !c.Quick() {
